@@ -159,7 +159,9 @@ CLAIMED['C16'] = dict(
         "samplers of 20 adaptive family variants under random interleavings of run/state/set_state without serialisation; contents of every "
         "sampler and every state object after every action vs the model; directly, every state object vs its contents when read and every "
         "sampler vs an isolated twin.",
-   note=ALIAS_NOTE + "Transdimensional samplers (state layout varies with the active set) are not generated here.",
+   note=ALIAS_NOTE + "Transdimensional samplers (state layout varies with the active set) are not generated here. Source tie (Props/C16_src.v): "
+        "whether Chain.state stores, and Chain.set_state hands on, a deep copy of the proposals' state is read off /repo's chain.py on every "
+        "run (tools/py2coq_state.py) and the snapshot theorems are restated with those flags in place of the model's.",
    technique="Coq proof (ownership invariant on a heap model, induction over operation lists, refutation witnesses by vm_compute) + vm_compute correspondence",
    ref="DESIGN.md section 3, C16")
 CLAIMED['C19'] = dict(
@@ -170,7 +172,11 @@ CLAIMED['C19'] = dict(
         "found (reset installing the stored arrays themselves) is refuted in Coq. Correspondence on real samplers of 20 adaptive family "
         "variants (random run/reset interleavings, resets before the first step and twice in a row), proposal-level comparison with a freshly "
         "built proposal given the same clock (state, jump, logpdf) after each of 1-4 resets, and real PT runs with reset_after_swap=True.",
-   note=ALIAS_NOTE + "The eigenvector families' 'ind' (direction of the most recent jump) is transient and excluded from the fresh-proposal comparison.",
+   note=ALIAS_NOTE + "The eigenvector families' 'ind' (direction of the most recent jump) is transient and excluded from the fresh-proposal comparison. "
+        "Source tie (Props/C19_src.v), regenerated from /repo on every run: the attributes each adaptive class registers for its reset "
+        "(keys of _initial_proposal_params in setup_adaptation) cover every attribute its adaptation changes (table of PropState.v) or are "
+        "followed by their recomputation; the reset loop installs copy.deepcopy of the stored values (the flag of the heap theorem); the "
+        "new window start is max(nsteps, 1) for every clock state.",
    technique="Coq proof (ownership invariant on a heap model; loop-invariant characterisation of the sweep's index array) + vm_compute correspondence",
    ref="DESIGN.md section 3, C19")
 
